@@ -397,6 +397,9 @@ def _job(arg):
         r = byid[int(x[0])]
         k = int(x[2])
         detail = ""
+        subs = sorted(str(f) for f in x[4]) if len(x) > 4 else []
+        x = list(x)
+        x[3] = str(x[3]) + ("." + "+".join(subs) if subs else "")
         comp0 = str(x[3]).split(".")[0]
         if str(x[1]) in ("SameFuture", "CrossLoad") and 1 <= k <= len(r["orig"]) and comp0 in r["orig"][k - 1]:
             detail = f"original {r['orig'][k - 1][comp0]} restored {r['rest'][k - 1][comp0]}"
